@@ -73,7 +73,7 @@ inline Congruence cg_from(const Cg& c, int n) { // integer-scaled PPL congruence
 }
 
 inline Grid grid_twin(const Grid& p, int how, std::string& desc) {
-  static const char* nm[8] = { "cgs-shuffled", "gens-shuffled", "mincgs", "mingens", "ascii", "copy+mincgs", "copy+mingens", "gens-redundant" };
+  static const char* nm[10] = { "cgs-shuffled", "gens-shuffled", "mincgs", "mingens", "ascii", "copy+mincgs", "copy+mingens", "gens-redundant", "affine-roundtrip+mingens", "mincgs+mingens+affine-roundtrip" };
   desc = nm[how];
   int n = p.space_dimension();
   Grid c(p);
@@ -92,6 +92,18 @@ inline Grid grid_twin(const Grid& p, int how, std::string& desc) {
     if (how == 7) { Lattice l = conv_ggs(gs, n); ref::canonicalize(l); for (size_t i = 0; i < l.params.size(); ++i) { Vec x = l.p; Q k = rnd(-2, 3); for (int d = 0; d < n; ++d) x[d] += k * l.params[i][d]; q.add_grid_generator(gg_from(x, n, 0)); } }
     return q; }
   case 4: { std::ostringstream o; p.ascii_dump(o); std::istringstream in(o.str()); Grid q(0); if (!q.ascii_load(in)) return c; return q; }
+  case 8: case 9: {
+    // lazy states reached through mutators: an invertible affine image and its inverse leave the value unchanged but
+    // rewrite one description in place (congruences up to date but no longer minimized, generators minimized, ...)
+    if (n == 0) return c;
+    if (how == 9) { (void) c.minimized_congruences(); (void) c.minimized_grid_generators(); }
+    else { (void) c.congruences(); (void) c.grid_generators(); }
+    Variable v(rnd(0, n - 1)); int k = rnd(1, 3);
+    Linear_Expression up = v + k, down = v - k;
+    if (n > 1 && coin()) { Variable w((v.id() + 1) % n); up = v + w; down = v - w; }
+    c.affine_image(v, up); c.affine_image(v, down);
+    if (coin(70)) (void) c.minimized_grid_generators(); else if (coin()) (void) c.minimized_congruences();
+    return c; }
   case 5: (void) c.minimized_congruences(); return c;
   default: (void) c.minimized_grid_generators(); return c;
   }
